@@ -11,7 +11,7 @@ MUTANTS = [
      "R5.1 _CategorySeriesXmlWriter._cat_pt_xml"),
     ("attr-helper-drops-quote-map", "picture._escape_attr escapes for character data only",
      [("src/pptx/oxml/shapes/picture.py", "    return escape(value, {'\"': \"&quot;\"})", "    return escape(value)")],
-     "R5.1 _escape_attr"),
+     "R5.1 CT_Picture.new_pic:desc"),
     ("numfmt-attr-text-escape", "axis number format escaped without the quote map",
      [(X, '.format(**{"cat_ax_pos": self._cat_ax_pos, "nf": escape(categories.number_format, {\'"\': "&quot;"})})',
        '.format(**{"cat_ax_pos": self._cat_ax_pos, "nf": escape(categories.number_format)})')],
